@@ -178,10 +178,19 @@ var dmodelKinds = map[string]bool{"coll": true, "rmcoll": true, "names": true, "
 // DModelMismatch runs the byte-level store model DStore.drun on the history and compares, step by step, the
 // observations and (after Flush / FlushRevert / re-open) length and MD5 of the predicted file with the implementation's.
 func DModelMismatch(ops []Op, obs []string, digests []string) *Mismatch {
+	total := 0
 	for _, o := range ops {
 		if o.H != 0 || !dmodelKinds[o.K] {
 			return nil
 		}
+		// the extracted byte-level model works on lists of N: keep it to files of moderate size
+		if len(o.Key) > 1500 || len(o.Val) > 6000 {
+			return nil
+		}
+		total += len(o.Key) + len(o.Val)
+	}
+	if total > 60000 {
+		return nil
 	}
 	if len(obs) < len(ops) || len(digests) < len(ops) {
 		return nil
